@@ -557,6 +557,12 @@ func runNomatch(c nomatchCase, idx int, sec *vh.Section) {
 		res.SpecFail(vh.SpecFailure{Section: "nomatch", Kind: "hang", Input: c, Impl: "no answer", Spec: "an answer", What: "a waiting query did not answer at all"})
 		return
 	}
+	// the model of the path that served the request (backend.Querier or rpc.ServerQuerier, shapes regenerated from the source)
+	path := "backend"
+	if c.RPC {
+		path = "rpc"
+	}
+	line = strings.Replace(line, "queryloop", "querycall "+path, 1)
 	model, derr := vh.Batch(args.Driver, []string{line})
 	if derr != nil {
 		res.Fatal(args.Out, "driver: %v", derr)
